@@ -358,7 +358,7 @@ func c11(c *Ctx) {
 			}
 		}
 	}
-	c.Floor("fs-object-rooted", 2, "filesystem.New and Clone")
+	c.Floor("fs-object-rooted", 1, "the constructors of filesystem.Htfs")
 	inv := true
 	for _, st := range cwdStores {
 		key := shortFn(st.Parent()) + " stores Htfs.cwd"
